@@ -14,10 +14,11 @@ the returned terms (not off local names), and the solver result is "the local as
 from __future__ import annotations
 
 import ast
+import copy
 
 import sympy as sp
 
-from ..core import AnchorMissing, Check, Undecided, calls_in, dotted, own_nodes, src
+from ..core import AnchorMissing, Check, FuncInfo, Undecided, calls_in, dotted, own_nodes, src
 from ..hydro import HY, TM, SideTyper, drop_ite, fn, hydro_extractor, junction_terms, n, th
 from ..nf import Ctx, eqx, has
 from ..terms import Extractor, is_zero
@@ -169,10 +170,187 @@ def _is_root_of(S, fo, fd, term) -> bool:
                              and (st.value.args[0] if st.value.args else next(k.value for k in st.value.keywords if k.arg == "f")).id == fd.node.name for st in sts)
 
 
+# ------------------------------------------------------------------------------------------------ whole tuples written out element by element
+#
+# The matching (v+, v-, T+, T-) may be kept whole for a while instead of being unpacked at once:
+#   a, b, c, d = map(f, E)            is   a, b, c, d = f(E[0]), f(E[1]), f(E[2]), f(E[3])     (the unpacking fixes the length)
+#   any(test(x) for x in t)           is   test(t[0]) or ... or test(t[n-1])                    (all(..): and)
+#   (*t, e) / g(*t, e)                is   (t[0], ..., t[n-1], e)
+# for a local t that is assigned once and only ever used in these ways, n being the number of names it is unpacked into (directly or through
+# `map`) in the same routine.  `_sequences_written_out` rewrites a copy of the routine accordingly, so that the term extraction reads the
+# elements themselves, as before.
+
+
+def _unpack_of(st):
+    """(number of targets, value) of `a, b, .. = value` with plain names on the left"""
+    if isinstance(st, ast.Assign) and len(st.targets) == 1 and isinstance(st.targets[0], (ast.Tuple, ast.List)) and st.targets[0].elts \
+            and all(isinstance(e_, ast.Name) for e_ in st.targets[0].elts):
+        return len(st.targets[0].elts), st.value
+    return None, None
+
+
+def _is_builtin_call(e, name: str, nargs: int) -> bool:
+    return isinstance(e, ast.Call) and isinstance(e.func, ast.Name) and e.func.id == name and len(e.args) == nargs and not e.keywords \
+        and not any(isinstance(a_, ast.Starred) for a_ in e.args)
+
+
+def _sequences_written_out(fi):
+    node = copy.deepcopy(fi.node)
+    own = list(own_nodes(node))
+    own_ids = {id(x) for x in own}
+    bound = set(fi.params()) | {a_.arg for a_ in ([node.args.vararg] if node.args.vararg else []) + ([node.args.kwarg] if node.args.kwarg else [])}
+    if {"map", "any", "all"} & (bound | {x.id for x in ast.walk(node) if isinstance(x, ast.Name) and isinstance(x.ctx, (ast.Store, ast.Del))}):
+        return fi
+    parent = {}
+    for x in ast.walk(node):
+        for c in ast.iter_child_nodes(x):
+            parent[id(c)] = x
+    in_loop = {id(y) for x in ast.walk(node) if isinstance(x, (ast.For, ast.While, ast.AsyncFor)) for y in ast.walk(x)}
+    # whole-tuple locals and their length
+    stores: dict = {}
+    for x in ast.walk(node):
+        if isinstance(x, ast.Name) and isinstance(x.ctx, (ast.Store, ast.Del)):
+            stores.setdefault(x.id, []).append(x)
+        elif isinstance(x, ast.arg):
+            stores.setdefault(x.arg, []).append(x)
+    lens: dict = {}
+    for st in own:
+        n_, v = _unpack_of(st)
+        if n_ is None:
+            continue
+        src_ = v.args[1] if _is_builtin_call(v, "map", 2) else v
+        if isinstance(src_, ast.Name):
+            lens.setdefault(src_.id, set()).add(n_)
+    whole = {}
+    for nm, ns in lens.items():
+        sts = stores.get(nm, [])
+        if len(ns) != 1 or len(sts) != 1 or nm in bound or id(sts[0]) not in own_ids or id(sts[0]) in in_loop:
+            continue
+        d = parent.get(id(sts[0]))
+        if not (isinstance(d, ast.Assign) and len(d.targets) == 1 and d.targets[0] is sts[0]):
+            continue
+        ok = True
+        for x in ast.walk(node):
+            if not (isinstance(x, ast.Name) and x.id == nm and isinstance(x.ctx, ast.Load)):
+                continue
+            p_ = parent.get(id(x))
+            pp_ = parent.get(id(p_))
+            if id(x) not in own_ids:
+                ok = False                                                        # read by a nested function
+            elif isinstance(p_, ast.Assign) and p_.value is x and _unpack_of(p_)[0] is not None:
+                pass                                                              # a, b = t
+            elif _is_builtin_call(p_, "map", 2) and p_.args[1] is x and isinstance(pp_, ast.Assign) and pp_.value is p_ and _unpack_of(pp_)[0] is not None:
+                pass                                                              # a, b = map(f, t)
+            elif isinstance(p_, ast.comprehension) and p_.iter is x and isinstance(pp_, (ast.GeneratorExp, ast.ListComp)) and len(pp_.generators) == 1 \
+                    and not p_.ifs and not p_.is_async and isinstance(p_.target, ast.Name) \
+                    and any(_is_builtin_call(parent.get(id(pp_)), q_, 1) for q_ in ("any", "all")):
+                pass                                                              # any(.. for x in t)
+            elif isinstance(p_, ast.Starred) and isinstance(p_.ctx, ast.Load) and isinstance(pp_, (ast.Tuple, ast.List, ast.Call)) \
+                    and any(y is p_ for y in (pp_.args if isinstance(pp_, ast.Call) else pp_.elts)):
+                pass                                                              # (*t, e)
+            else:
+                ok = False
+        if ok:
+            whole[nm] = next(iter(ns))
+    changed = False
+    taken = {x.id for x in ast.walk(node) if isinstance(x, ast.Name)} | {x.arg for x in ast.walk(node) if isinstance(x, ast.arg)}
+    slots = {}
+    for nm, n_ in whole.items():
+        slots[nm] = []
+        for i in range(n_):
+            s_ = f"{nm}__{i}"
+            while s_ in taken:
+                s_ += "_"
+            taken.add(s_)
+            slots[nm].append(s_)
+
+    def _elem(e, i: int):
+        """element i of e; for a whole-tuple local: its slot (the local itself becomes `t__0, .., t__k = <definition>`)"""
+        if isinstance(e, ast.Name) and e.id in slots:
+            return ast.copy_location(ast.Name(id=slots[e.id][i], ctx=ast.Load()), e)
+        if isinstance(e, (ast.Tuple, ast.List)) and i < len(e.elts) and not any(isinstance(y, ast.Starred) for y in e.elts):
+            return copy.deepcopy(e.elts[i])
+        return ast.copy_location(ast.Subscript(value=copy.deepcopy(e), slice=ast.copy_location(ast.Constant(value=i), e), ctx=ast.Load()), e)
+
+    class T(ast.NodeTransformer):
+        def visit_FunctionDef(self, x):
+            if x is node:
+                self.generic_visit(x)
+            return x
+
+        def visit_Lambda(self, x):
+            return x
+
+        def visit_Assign(self, x):
+            nonlocal changed
+            self.generic_visit(x)
+            n_, v = _unpack_of(x)
+            if n_ is not None and _is_builtin_call(v, "map", 2) and isinstance(v.args[0], (ast.Name, ast.Attribute)) \
+                    and not any(isinstance(y, (ast.NamedExpr, ast.Await, ast.Yield, ast.YieldFrom, ast.Lambda, ast.Starred)) for y in ast.walk(v.args[1])):
+                x.value = ast.copy_location(ast.Tuple(elts=[ast.copy_location(ast.Call(func=copy.deepcopy(v.args[0]), args=[_elem(v.args[1], i)], keywords=[]), v)
+                                                            for i in range(n_)], ctx=ast.Load()), v)
+                changed = True
+            elif n_ is not None and isinstance(v, ast.Name) and v.id in slots:
+                x.value = ast.copy_location(ast.Tuple(elts=[_elem(v, i) for i in range(n_)], ctx=ast.Load()), v)
+                changed = True
+            elif isinstance(x.targets[0], ast.Name) and x.targets[0].id in slots and len(x.targets) == 1:
+                t_ = x.targets[0]
+                x.targets = [ast.copy_location(ast.Tuple(elts=[ast.copy_location(ast.Name(id=s_, ctx=ast.Store()), t_) for s_ in slots[t_.id]], ctx=ast.Store()), t_)]
+                changed = True
+            return x
+
+        def visit_Call(self, x):
+            nonlocal changed
+            self.generic_visit(x)
+            for q_, op in (("any", ast.Or), ("all", ast.And)):
+                if _is_builtin_call(x, q_, 1) and isinstance(x.args[0], (ast.GeneratorExp, ast.ListComp)) and len(x.args[0].generators) == 1:
+                    g_ = x.args[0].generators[0]
+                    if isinstance(g_.iter, ast.Name) and g_.iter.id in whole and isinstance(g_.target, ast.Name) and not g_.ifs:
+                        var = g_.target.id
+
+                        class Sb(ast.NodeTransformer):
+                            def __init__(self, i):
+                                self.i = i
+
+                            def visit_Name(self, y):
+                                return _elem(g_.iter, self.i) if y.id == var and isinstance(y.ctx, ast.Load) else y
+
+                        vals = [Sb(i).visit(copy.deepcopy(x.args[0].elt)) for i in range(whole[g_.iter.id])]
+                        changed = True
+                        return ast.copy_location(ast.BoolOp(op=op(), values=vals), x) if len(vals) > 1 else vals[0]
+            x.args = self._spread(x.args)
+            return x
+
+        def _spread(self, seq):
+            nonlocal changed
+            out = []
+            for y in seq:
+                if isinstance(y, ast.Starred) and isinstance(y.ctx, ast.Load) and isinstance(y.value, ast.Name) and y.value.id in whole:
+                    out += [_elem(y.value, i) for i in range(whole[y.value.id])]
+                    changed = True
+                else:
+                    out.append(y)
+            return out
+
+        def visit_Tuple(self, x):
+            self.generic_visit(x)
+            if isinstance(x.ctx, ast.Load):
+                x.elts = self._spread(x.elts)
+            return x
+
+        visit_List = visit_Tuple
+
+    T().visit(node)
+    if not changed:
+        return fi
+    ast.fix_missing_locations(node)
+    return FuncInfo(fi.module, fi.qual, node, fi.cls, fi.parent)
+
+
 def r02_3(chk: Check):
     S = chk.src
     ex = hydro_extractor(S)
-    fh = S.func(f"{HY}.findHydroBoundaries")
+    fh = _sequences_written_out(S.func(f"{HY}.findHydroBoundaries"))
     chk.touch(fh.name)
     ps = [p for p in ex.paths(fh) if p.raised is None and isinstance(p.value, tuple) and len(p.value) == 5
           and isinstance(p.value[0], sp.Basic) and p.value[0].free_symbols]
@@ -191,7 +369,7 @@ def r02_3(chk: Check):
     ok, how = is_zero(vmid + (vm + vp) / 2, chk.seed)
     chk.ob("R02.3", fh.where(), "velocityMid == -(v+ + v-)/2 (wall-frame sign convention)", ok, how, key="vmid", how=how)
     # template sibling
-    ft = S.func(f"{TM}.findHydroBoundaries")
+    ft = _sequences_written_out(S.func(f"{TM}.findHydroBoundaries"))
     chk.touch(ft.name)
     ext = hydro_extractor(S, positive={"self.Tnucl", "self.mu", "self.wN"})
     pt = [p for p in ext.paths(ft) if p.raised is None and isinstance(p.value, tuple) and len(p.value) == 5
